@@ -8,6 +8,7 @@ import (
 	"context"
 	stdjson "encoding/json"
 	"fmt"
+	"math/big"
 	"net/http"
 	"net/http/httptest"
 	"os"
@@ -268,7 +269,7 @@ func diffKeys(a, b map[string]interface{}) string {
 // codec sweep: every JSON value of nesting depth <= 2 over the atom alphabet as a job variable,
 // submitted through the real schedule handler, completed, saved, restarted.
 
-var jsonAtoms = []string{`null`, `true`, `false`, `0`, `1`, `-1`, `9007199254740992`, `1e-9`, `0.1234567891`, `1.5`, `-2.5e-7`, `1e21`, `123456789.125`, `""`, `"a"`, `"é\"\n<>& \\  "`}
+var jsonAtoms = []string{`null`, `true`, `false`, `0`, `1`, `-1`, `9007199254740992`, `1e-9`, `0.1234567891`, `1.5`, `-2.5e-7`, `1e21`, `123456789.125`, `9007199254740993`, `12345678901234567890`, `0.1234567890123456789`, `""`, `"a"`, `"é\"\n<>& \\  "`}
 
 func jsonValues() []string {
 	vals := append([]string(nil), jsonAtoms...)
@@ -562,9 +563,10 @@ func jsonEqual(a, b interface{}) bool {
 		if string(x) == string(y) {
 			return true
 		}
-		fx, e1 := x.Float64()
-		fy, e2 := y.Float64()
-		return e1 == nil && e2 == nil && fx == fy
+		// exactly, as rationals: two literals that merely round to the same float64 are different values
+		rx, ok1 := new(big.Rat).SetString(string(x))
+		ry, ok2 := new(big.Rat).SetString(string(y))
+		return ok1 && ok2 && rx.Cmp(ry) == 0
 	case []interface{}:
 		y, ok := b.([]interface{})
 		if !ok || len(x) != len(y) {
